@@ -18,7 +18,7 @@ TECHNIQUE = 'exhaustive enumeration of a small name language through the real co
 RULE = ('(a) all names up to the bound; (b) all 7,225 pairs in one file; (c) random unicode names; non-trivial = name containing a quote or a '
         'slash or empty; distinct = the name pair')
 ASSUMPTIONS = ['names contain no lone surrogates (not encodable as UTF-8)']
-REQUIRED = ['codec_roundtrips', 'injectivity_pairs', 'end_to_end_lookups', 'unicode_names', 'lazy_lookups']
+REQUIRED = ['reused_writer_objects', 'implied_group_lookups', 'codec_roundtrips', 'injectivity_pairs', 'end_to_end_lookups', 'unicode_names', 'lazy_lookups']
 EXHAUSTIVE = {'quick': False, 'thorough': False}
 ALPHA = ["'", '/', ' ', 'a']
 
@@ -100,12 +100,25 @@ def codec_pairs(case, ctx):
                 ctx.violation('codec/two-groups-one-path', {'groups': [g, g2]})
 
 
-def write_read(ctx, pairs, label):
-    """Write every pair as a channel holding its id; read back eagerly and lazily and check identity."""
+def write_read(ctx, pairs, label, reuse=False):
+    """Write every pair as a channel holding its id; read back eagerly and lazily and check identity.
+    reuse=True: one ChannelObject / GroupObject instance is re-used with its public attributes reassigned, one segment per pair."""
     from nptdms import TdmsFile, TdmsWriter, ChannelObject, GroupObject
     ids = {pc: i for i, pc in enumerate(pairs)}
     buf = io.BytesIO()
-    with TdmsWriter(buf) as w:
+    if reuse:
+        ctx.count('reused_writer_objects', len(pairs))
+        with TdmsWriter(buf) as w:
+            ch = ChannelObject(pairs[0][0], pairs[0][1], np.array([0], dtype='i4'), {})
+            gr = GroupObject(pairs[0][0], {})
+            for g, c in pairs:
+                ch.group, ch.channel, ch.data, ch.properties = g, c, np.array([ids[(g, c)]], dtype='i4'), {'id': ids[(g, c)]}
+                w.write_segment([ch])
+            for g in sorted({g for g, _ in pairs}):
+                gr.group, gr.properties = g, {'gname': g}
+                w.write_segment([gr])
+    else:
+      with TdmsWriter(buf) as w:
         # two segments so that objects are looked up again by path in the second one
         half = len(pairs) // 2
         for part in (pairs[:half], pairs[half:]):
@@ -114,6 +127,11 @@ def write_read(ctx, pairs, label):
         groups = sorted({g for g, _ in pairs})
         w.write_segment([GroupObject(g, {'gname': g}) for g in groups])
     data = buf.getvalue()
+    check_identity(ctx, data, pairs, ids, label)
+
+
+def check_identity(ctx, data, pairs, ids, label, group_props=True):
+    from nptdms import TdmsFile
     for mode in ('eager', 'lazy'):
         tf = (TdmsFile.read if mode == 'eager' else TdmsFile.open)(io.BytesIO(data))
         try:
@@ -138,7 +156,7 @@ def write_read(ctx, pairs, label):
                 if ch.name != c or ch.group_name != g or ch.path != M.qpath(g, c):
                     ctx.violation('%s/reported-name-changed' % label, {'mode': mode, 'pair': (g, c), 'name': ch.name, 'group_name': ch.group_name, 'path': ch.path})
                 grp = tf[g]
-                if grp.name != g or grp.path != M.qpath(g) or grp.properties.get('gname') != g:
+                if grp.name != g or grp.path != M.qpath(g) or (group_props and grp.properties.get('gname') != g):
                     ctx.violation('%s/group-identity' % label, {'mode': mode, 'group': g, 'name': grp.name, 'path': grp.path, 'prop': grp.properties.get('gname')})
         finally:
             tf.close()
@@ -156,6 +174,24 @@ def e2e_groups(case, ctx):
     pairs = [(g, c) for g in gs for c in W4[::3]]
     ctx.evaluation(len(pairs))
     write_read(ctx, pairs, 'group-block-file')
+    write_read(ctx, [(g, c) for g in gs for c in W3[::7]], 'reused-object-file', reuse=True)
+    implied(ctx, [(g, c) for g in gs for c in W3[::5]])
+
+
+def implied(ctx, pairs):
+    """Groups that exist only through their channels (no group object in the file): built with the independent encoder."""
+    import struct
+    ids = {pc: i for i, pc in enumerate(pairs)}
+    s = M.Seg()
+    for g, c in pairs:
+        p = M.qpath(g, c)
+        s.listing.append((p, 'full', ('i32', 1, None)))
+        s.props[p] = [('id', 'i32', ids[(g, c)])]
+        s.active.append((p, True, ('i32', 1, None)))
+    s.chunks = [{M.qpath(g, c): np.array([ids[(g, c)]], dtype='i4') for g, c in pairs}]
+    data = M.encode_file([s])[0]
+    ctx.count('implied_group_lookups', len(pairs))
+    check_identity(ctx, data, pairs, ids, 'implied-group-file', group_props=False)
 
 
 def unicode_names(case, ctx):
@@ -184,6 +220,7 @@ def unicode_names(case, ctx):
             ctx.violation('codec/unicode-roundtrip', {'pair': (g, c)})
         ctx.distinct((g, c))
     write_read(ctx, pairs, 'unicode-file')
+    write_read(ctx, pairs, 'unicode-reused-object-file', reuse=True)
     ctx.sample({'case': case, 'names': pairs[:3]}, limit=1)
 
 
